@@ -12,11 +12,34 @@ def gen(rng, tier):
     return cases
 
 
+def envelope_streams(rng, tier):
+    """every empty/non-empty shape of 1..3 payload frames, both directions between ROUTER and DEALER, both transports with an engine"""
+    shapes = []
+    for k in (1, 2, 3):
+        for mask in range(2 ** k):
+            fr = []
+            for i in range(k):
+                body = "-" if (mask >> i) & 1 else "h%02x%02x" % (0x41 + i, k)
+                fr.append(("1" if i < k - 1 else "0") + body)
+            shapes.append(",".join(fr))
+    cases = []
+    for tr in ("tcp", "inproc") if tier == "quick" else ("tcp", "ipc", "inproc"):
+        for style in ("mp", "fr"):
+            msgs = ";".join(shapes)
+            cases.append(["stream tr=%s,rt=ct,when=after,style=%s type=ROUTER,mandatory=1 type=DEALER,id=h6431 %s" % (tr, style, msgs)])
+            cases.append(["stream tr=%s,rt=ct,when=after,style=%s type=DEALER type=ROUTER %s" % (tr, style, msgs)])
+    return cases
+
+
 SPEC = {
-    "components": [{"comp": "routing", "gen": gen, "oracle": R.map_oracle, "label": "routermap",
+    "components": [{"comp": "stack", "gen": envelope_streams, "label": "envelopes-stack", "shrink": False,
+                    "nontrivial": lambda c, i: any(l.startswith("delivered=") for l in i), "dist": lambda cs: {"cases": len(cs)}},
+                   {"comp": "routing", "gen": gen, "oracle": R.map_oracle, "label": "routermap",
                     "nontrivial": lambda c, i: any(" " in l and l != "none" for l in i), "dist": lambda cs: {"cases": len(cs)}}],
-    "search": lambda rng, tier: [("routing", gen(rng, tier), R.map_oracle)],
-    "rule": "random histories of add_peer/update_peer_identity/remove_peer_by_read_pipe/lookups/prepare_wire_frames on the real "
+    "search": lambda rng, tier: [("stack", envelope_streams(rng, "thorough"), None, False), ("routing", gen(rng, tier), R.map_oracle)],
+    "rule": "stack level: every empty/non-empty shape of 1..3 payload frames sent ROUTER>DEALER (addressed by the DEALER's ROUTING_ID) and "
+            "DEALER>ROUTER over tcp/ipc/inproc, read whole and frame by frame: the payload must arrive unchanged (digest predicted by the model); "
+            "component level: random histories of add_peer/update_peer_identity/remove_peer_by_read_pipe/lookups/prepare_wire_frames on the real "
             "RouterMap (identities 1..226 bytes, colliding identities included), plus the four auto-framing functions on payload "
             "shapes with empty frames in every position; oracle = per-pipe current-identity reference (applied while no two live "
             "pipes share an identity)",
